@@ -1,6 +1,6 @@
 (* C07: k-mer counting is exact and independent of threads, chunking and partitioning. *)
 From Coq Require Import NArith ZArith List.
-From KT Require Import Model.Kmer Model.Ops Model.Rows Model.Pipeline Proof.CountSched Proof.Merge.
+From KT Require Import Gen.Generated Gen.Alphabet Gen.GeneratedFacts Model.Kmer Model.Ops Model.Rows Model.Pipeline Proof.CountSched Proof.Merge Proof.CountProof.
 Import ListNotations.
 Open Scope N_scope.
 
@@ -32,6 +32,18 @@ Theorem C07_every_kmer_has_its_line :
   In (x, Merge.occ x (everything bags)) (merged n_parts bags).
 Proof. exact merged_complete. Qed.
 
+(* the counts file as a whole: for every partition count >= 1 and every way the records were split into chunk
+   passes, the sorted table of the model (chunk files per partition, merged) is exactly the specification's table:
+   one line per distinct canonical k-mer of the input with its total number of occurrences, numeric or as ACGT *)
+Theorem C07_counts_table_exact :
+  forall k acgt n_parts chunks, (1 <= k <= 31)%nat -> 1 <= n_parts ->
+  Forall (Forall (fun b => 4 <= b < 256)) (concat chunks) ->
+  m_ctr k acgt n_parts chunks = s_ctr k acgt (concat chunks).
+Proof.
+  intros k acgt n_parts chunks Hk Hn Hb. apply ctr_model_spec; [exact Hk|exact Hn|exact letters_ok|].
+  revert Hb. apply Forall_impl. intros s. apply Forall_impl. intros b Hb. exact (table_ok_spec table_kmer table_kmer_ok b Hb).
+Qed.
+
 Example C07_example :
   m_ctr 2 false 3 [[[65;67;71;84]]; [[65;67]; [71;84;78;65;67]]] = s_ctr 2 false [[65;67;71;84]; [65;67]; [71;84;78;65;67]].
 Proof. vm_compute. reflexivity. Qed.
@@ -40,3 +52,4 @@ Print Assumptions C07_counting_exact_every_interleaving.
 Print Assumptions C07_merge_lines_carry_totals.
 Print Assumptions C07_one_line_per_kmer.
 Print Assumptions C07_every_kmer_has_its_line.
+Print Assumptions C07_counts_table_exact.
